@@ -342,7 +342,23 @@ def build_dataclass(case, order, checker_name, split=None):
     return jaxtyped(typechecker=tc)(D)
 
 
-def call_args(case, order, style, make=lambda shape: np.zeros(shape), kinds=None, with_int=True):
+class NpIntShaped(np.ndarray):
+    """An ndarray whose .shape reports NumPy integer scalars instead of `int` instances (integer-like sizes, as several array libraries and
+    symbolic-shape systems report them): sizes are only ever compared and bound, so nothing changes."""
+
+    @property
+    def shape(self):
+        return tuple(np.int64(s) for s in super().shape)
+
+
+def make_array(shape, npint=False):
+    a = np.zeros(tuple(shape))
+    return a.view(NpIntShaped) if npint else a
+
+
+def call_args(case, order, style, make=None, kinds=None, with_int=True):
+    if make is None:
+        make = lambda shape: make_array(shape, bool(case.get("npint_shapes")))  # noqa: E731
     ps = [case["params"][i] for i in order]
     vals = [make(tuple(p["shape"])) for p in ps]
     kinds = kinds or ["pk"] * len(ps)
